@@ -124,14 +124,22 @@ def right_shift(arr):
 
 
 def vec_1d_interp(xs, ys, x):
+    # A query on (or, by rounding, beyond) a row's end nodes takes the end value, as
+    # np.interp does. On the first node there is no node strictly below the query:
+    # bracket it from the end of the row's leading plateau.
+    x = np.clip(x, xs[:, 0], xs[:, -1])
+    first = x <= xs[:, 0]
+
     # mask and index for upper bound
     hi_msk = xs >= x[:, None]
+    hi_msk[first] = xs[first] > xs[first, :1]
     shf_hi = left_shift(hi_msk)
     hi_m = np.logical_xor(hi_msk, shf_hi)
     hi = np.where(hi_m)[1]
 
     # mask and index for lower bound
     lo_msk = xs < x[:, None]
+    lo_msk[first] = ~hi_msk[first]
     shf_lo = right_shift(lo_msk)
     lo_m = np.logical_xor(lo_msk, shf_lo)
     lo = np.where(lo_m)[1]
